@@ -359,6 +359,13 @@ func timedOracle(name string, check func(cScenario, cResult) (string, string)) f
 				if w := cliFloodProbe(v6); w != "" {
 					res.fail(Failure{Oracle: name, Input: fline, What: w, Class: "call-outlasts-schedule-under-flood"})
 				}
+				wline := fmt.Sprintf("closewhilewriting v6=%v rounds=40", v6)
+				cliNoteLine(wline)
+				res.Evaluations++
+				res.Tags["closed-while-transmitting"]++
+				if w := cliCloseWhileWritingProbe(v6, 40); w != "" {
+					res.fail(Failure{Oracle: name, Input: wline, What: w, Class: "close-while-transmitting"})
+				}
 			}
 		}
 		if thorough {
